@@ -19,8 +19,23 @@ enum End {
     Oversized,
     IdleTimeout,
     Reset,
+    /// part of a normal request, then silence until the idle timeout
+    MidRequestStall,
+    /// header + part of the body of an oversized item, then silence until the idle timeout
+    OversizedStall,
 }
-const ENDS: [End; 8] = [End::Close, End::Quit, End::QuitQ, End::MidRequest, End::BadMagic, End::Oversized, End::IdleTimeout, End::Reset];
+const ENDS: [End; 10] = [
+    End::Close,
+    End::Quit,
+    End::QuitQ,
+    End::MidRequest,
+    End::BadMagic,
+    End::Oversized,
+    End::IdleTimeout,
+    End::Reset,
+    End::MidRequestStall,
+    End::OversizedStall,
+];
 
 struct Conn {
     c: NetClient,
@@ -120,7 +135,15 @@ fn end_conn(w: &NetWorld, conns: &mut Vec<Conn>, i: usize, kind: End, limit_item
             let _ = conns[i].c.step(w, &big);
             conns[i].c.close(w);
         }
-        End::IdleTimeout => {
+        End::IdleTimeout | End::MidRequestStall | End::OversizedStall => {
+            if kind == End::MidRequestStall {
+                let r = Req::store(op::SET, b"half", b"value-value", 0, 0, 0).bytes();
+                let _ = conns[i].c.step(w, &r[..r.len() - 5]);
+            }
+            if kind == End::OversizedStall {
+                let big = Req::store(op::SET, b"big", &vec![b'x'; limit_item as usize + 600], 0, 0, 0).opaque(0x74).bytes();
+                let _ = conns[i].c.step(w, &big[..24 + 300]);
+            }
             // keep the other served connections busy so that only this one is idle for > 60 s
             w.advance(30);
             for j in 0..conns.len() {
@@ -132,7 +155,7 @@ fn end_conn(w: &NetWorld, conns: &mut Vec<Conn>, i: usize, kind: End, limit_item
             w.advance(31);
             conns[i].c.pump();
             if !conns[i].c.eof {
-                return Some("idle timeout: connection not closed by the server after 61 s of silence".into());
+                return Some(format!("{:?}: connection not closed by the server after 61 s of silence", kind));
             }
             conns[i].c.close(w);
         }
@@ -172,6 +195,15 @@ fn scenario(limit: usize, kinds: &[End], reverse: bool) -> Result<Res, String> {
         if let Some(p) = check_served(limit, &conns, &format!("after connection #{} ended by {:?}", i, kind)) {
             return fail(&format!("slot-after|{:?}", kind), p);
         }
+    }
+    // connections that are reset before the server ever accepted them must not hurt the accept loop
+    if kinds.contains(&End::Reset) {
+        for _ in 0..2 {
+            if let Ok(mut c) = w.connect_nosettle() {
+                c.abort(&w);
+            }
+        }
+        w.settle();
     }
     // probe: the server must again serve exactly `limit` fresh connections
     let mut probe: Vec<Conn> = vec![];
@@ -231,6 +263,12 @@ pub fn check(tier: Tier, threads: usize) -> CheckOutcome {
             }
         }
     }
+    // quick tier keeps the 3-lifecycle histories to those with at most one stall (virtual-time heavy)
+    if tier == Tier::Quick {
+        cases.retain(|(l, k, _)| {
+            *l == 1 || k.len() <= 3 || k.iter().filter(|e| matches!(e, End::MidRequestStall | End::OversizedStall | End::IdleTimeout)).count() <= 1
+        });
+    }
     crate::watchdog::working_on("C17 connection lifecycles".into());
     let results = par_map(&cases, threads, |_, (l, k, r)| scenario(*l, k, *r));
     let mut found: BTreeMap<String, Violation> = BTreeMap::new();
@@ -238,6 +276,14 @@ pub fn check(tier: Tier, threads: usize) -> CheckOutcome {
     let mut events = 0u64;
     for ((l, k, r), res) in cases.iter().zip(results.iter()) {
         match res {
+            Err(e) if e.starts_with("connect:") => {
+                let sig = "server|not-accepting".to_string();
+                found.entry(sig.clone()).or_insert(Violation {
+                    signature: sig,
+                    what: format!("limit={} lifecycles={:?}: the server stopped accepting connections ({})", l, k, e),
+                    replay: json!({"engine": "c17", "limit": l, "lifecycles": format!("{:?}", k), "reverse": r}),
+                });
+            }
             Err(e) => mach = Some(format!("limit {} {:?}: {}", l, k, e)),
             Ok(res) => {
                 events += res.events;
